@@ -72,9 +72,17 @@ def tracer_leak(m):
 
 
 def exc_in_harness(exc):
-    """True if the innermost frame of the traceback is in /verif code (a bug of the harness, not of jaxley)."""
+    """True if the exception is a bug of the harness rather than behaviour of the system under test: walking from the
+    innermost frame outwards (skipping third-party frames such as jax / numpy / pandas), the first frame that belongs to
+    either side decides — jaxley: the library raised (or made JAX raise); /verif: the harness did."""
     tb = traceback.extract_tb(exc.__traceback__)
-    return bool(tb) and "/verif/" in tb[-1].filename
+    for fr in reversed(tb):
+        fn = fr.filename
+        if "/jaxley/" in fn and "/verif/" not in fn:
+            return False
+        if "/verif/" in fn:
+            return True
+    return False
 
 
 def exc_text(exc):
@@ -100,8 +108,15 @@ def build_jx(shape):
     cache = {}
     for c in shape["cells"]:
         branches = []
-        for k in c["ncomp"]:
-            if share == "all":
+        pre = c.get("pre") or {}
+        for bi, k in enumerate(c["ncomp"]):
+            if str(bi) in pre:
+                # channels inserted into the constituent Branch *before* the Cell is assembled (own Branch object)
+                br = jx.Branch([mk_comp() for _ in range(k)]) if share != "all" else jx.Branch(comp, ncomp=k)
+                for cls in pre[str(bi)]:
+                    br.insert(mech.make_channel(cls))
+                branches.append(br)
+            elif share == "all":
                 if k not in cache:
                     cache[k] = jx.Branch(comp, ncomp=k)
                 branches.append(cache[k])
@@ -113,12 +128,27 @@ def build_jx(shape):
     return jx.Network(cells)
 
 
-def shape_of_swc(text, ncomp):
+def apply_pre(ref, shape):
+    """Model side of constituent-level channel insertion (shape["cells"][i]["pre"] = {branch: [channel classes]})."""
+    if shape["kind"] not in ("cell", "network"):
+        return
+    boff = 0
+    for c in shape["cells"]:
+        pre = c.get("pre") or {}
+        for bi in range(len(c["ncomp"])):
+            for cls in pre.get(str(bi), []):
+                rows = [i for i in range(ref.n) if ref.branch[i] == boff + bi]
+                rv = ref.root().select(nodes=rows)
+                ref.insert(rv, mech.chan_desc(cls))
+        boff += len(c["ncomp"])
+
+
+def shape_of_swc(text, ncomp, min_radius=None):
     """Read an SWC morphology from in-memory text (the simulator's 'disk')."""
     from jaxley.io.swc import read_swc
 
     with quiet():
-        return read_swc(io.StringIO(text), ncomp=ncomp, max_branch_len=None, assign_groups=True)
+        return read_swc(io.StringIO(text), ncomp=ncomp, max_branch_len=None, assign_groups=True, min_radius=min_radius)
 
 
 # ----------------------------------------------------------------------------- index resolution
@@ -189,6 +219,7 @@ class World:
             else:
                 self.m = build_jx(shape)
                 self.ref = RefModule(shape["kind"], shape["cells"])
+                apply_pre(self.ref, shape)
         self.violations = []
         self.stats = {}
         self.chain = snap.Chain()
